@@ -124,6 +124,10 @@ PROFILES = {
                 p_autostart=0.1, autorestart=['false'], startsecs=[0, 1, 1, 2, 4], p_wait_exit=0.0, p_late_boot=0.15,
                 late_boot_max=30.0, conciliation_strategies=['USER'], synchro_pool=['TIMEOUT', 'STRICT', 'LIST'],
                 need_timeout=True, p_app_sequenced=0.5, p_managed=0.95),
+    'C20': dict(builder='puppet', stats=True, p_managed=0.8, p_numprocs=0.1, p_autostart=0.1, n_groups=[1, 2],
+                n_programs=[1, 2, 3], child_kinds=SIMPLE_CHILDREN, supvisors_failure_strategies=['CONTINUE'],
+                p_auto_fence=0.3, inactivity_ticks=[2, 3], hostile=0.0, window=(18.0, 140.0), quiesce=30.0,
+                n_events=(5, 30), n_samples=(40, 400), n_puppets=[1, 2, 2, 3]),
     'C02': dict(BASE, max_faults=6, ops='fsm', running_failure=gen.RUNNING_FAILURE + ['RESTART', 'SHUTDOWN'],
                 p_autostart=0.4, p_late_boot=0.4,
                 fault_weights={'crash': 2, 'restart': 3, 'partition': 2, 'stall': 1, 'slow': 1, 'clock_jump': 0.5,
@@ -247,6 +251,9 @@ def observers_for(prop, scen):
     elif prop == 'C17':
         from oracles import gating
         obs.append(gating.Gating())
+    elif prop == 'C20':
+        from oracles import statistics
+        obs.append(statistics.StatsInvariants())
     elif prop == 'C15':
         from oracles import appstatus
         obs.append(appstatus.ApplicationStatusMonitor())
